@@ -55,6 +55,20 @@ pub mod ghost {
 	}
 }
 
+/// I/O errors are parked here instead of being stored inside the model error enums: an enum that
+/// owns an `io::Error` drags the drop glue of `Box<dyn Error>` into every instantiation of xt's
+/// transcoder, and CBMC's over-approximate vtable dispatch turns that into a recursion.
+pub static mut IO_STASH: Option<io::Error> = None;
+pub fn stash_io(e: io::Error) {
+	unsafe {
+		let old = IO_STASH.replace(e);
+		std::mem::forget(old);
+	}
+}
+pub fn take_io() -> io::Error {
+	unsafe { IO_STASH.take().unwrap_or_else(|| io::Error::from(io::ErrorKind::Other)) }
+}
+
 pub fn is_blank(b: u8) -> bool {
 	b == b' ' || b == b'\n'
 }
@@ -182,7 +196,7 @@ impl<'de, E: ModelErr> serde::Deserializer<'de> for TokDe<E> {
 /// A plain error type for models that need nothing special.
 #[derive(Debug)]
 pub enum PlainError {
-	Io(io::Error),
+	Io,
 	Syntax,
 	Custom,
 }
@@ -197,6 +211,9 @@ impl serde::ser::Error for PlainError {
 	fn custom<T: fmt::Display>(_: T) -> Self { PlainError::Custom }
 }
 impl ModelErr for PlainError {
-	fn io(e: io::Error) -> Self { PlainError::Io(e) }
+	fn io(e: io::Error) -> Self {
+		stash_io(e);
+		PlainError::Io
+	}
 	fn syntax() -> Self { PlainError::Syntax }
 }
